@@ -275,7 +275,10 @@ impl MultiReceiver {
             }
         }
 
-        self.alc_receiver.retain(|_, v| !v.is_expired());
+        // Remove exactly the sessions that will be notified as closed
+        for endpoint in &output {
+            self.alc_receiver.remove(endpoint);
+        }
         for receiver in &mut self.alc_receiver.values_mut() {
             receiver.cleanup(now);
         }
